@@ -208,13 +208,22 @@ class MarkClock(simnet.SimClock):
     come due in one advance() can be told apart."""
 
     def callLater(self, delay, f, *a, **kw):
-        holder = {}
+        holder = {"due": self.seconds() + delay}     # the deadline task.Clock computes at issue
 
         def run(*a2, **kw2):
             self.log.append(("fired", holder["id"]))
+            if self.seconds() != holder["due"]:
+                # fired at another instant than issue + delay: somebody used DelayedCall.delay()/reset()
+                self.log.append(("reset_timer", holder["id"]))
             return f(*a2, **kw2)
         dc = simnet.SimClock.callLater(self, delay, run, *a, **kw)
         holder["id"] = dc.sim_id
+        orig_reset = dc.resetter
+
+        def resetting(call, orig=orig_reset):      # DelayedCall.reset()/delay(): the model never moves a deadline
+            self.log.append(("reset_timer", call.sim_id))
+            orig(call)
+        dc.resetter = resetting
         return dc
 
     def fire_next(self):
@@ -604,6 +613,8 @@ class Impl(object):
                 outs.append(("raised", e[1]) + tuple(e[2:]))
             elif k == "abort":
                 outs.append(("abort", e[1]))
+            elif k == "reset_timer":
+                outs.append(("reset_timer", e[1] - 1))
         return outs
 
 
@@ -798,7 +809,7 @@ class Gen(object):
             if r < 0.4:
                 return ("lost", rnd.randrange(n + 1))
             if r < 0.55:
-                return ("timer", len(im.clock.getDelayedCalls()) + rnd.randint(50, 60))
+                return ("timer", im.clock._ids + rnd.randint(50, 60))      # a name no DelayedCall has (yet)
             if r < 0.7:
                 return ("bootok", rnd.randrange(len(im.boots) + 1))
             if r < 0.85:
@@ -817,8 +828,8 @@ class Gen(object):
                 ev = self.make_event()
             if ev is None:
                 continue
-            if ev[0] == "timer" and not self.im.enabled(ev) and ev[1] < 40:
-                continue
+            if ev[0] == "timer" and not self.im.enabled(ev) and ev[1] < self.im.clock._ids:
+                continue      # an existing DelayedCall that is not the earliest: the model would fire it, the reactor cannot
             recs = self.im.apply(ev)
             self.events.append(ev)
             if ev[0] != "tick":
@@ -862,7 +873,7 @@ class Gen(object):
 
 
 def random_cfg(rnd, dot=None):
-    return {"timeout": rnd.choice([5000, 5000, 1000, 10000, 250]),
+    return {"timeout": rnd.choice([5000, 5000, 1000, 10000, 250, 1, 7]),
             "dot": (rnd.random() < 0.5) if dot is None else dot,
             "mode": rnd.randrange(0, 8),
             "corr0": rnd.choice([0, 0, 0, 7, 2 ** 31 - 3, 2 ** 31 - 2]),
@@ -886,6 +897,8 @@ def monitor(cfg, records, which=("C11", "C20")):
     closefired = 0
     findings = []
     req_info = {}             # d -> (broker client, correlation id, expects a reply)
+    op_kind = {}              # p -> kind
+    boot_lose = set()         # bootstrap connections the client asked to close
 
     def B(thm, msg):
         bad.append((thm, msg, idx))
@@ -899,6 +912,10 @@ def monitor(cfg, records, which=("C11", "C20")):
                 B("C11_late_reply_inert", "disabled event %r produced %r" % (ev, outs))
             continue
         for o in outs:
+            if o[0] == "bootlose":
+                boot_lose.add(o[1])
+            if o[0] == "reset_timer":
+                B("C11_timer_never_rearmed" if c11 else "C20_pending_end", "DelayedCall %d was reset / delayed" % o[1])
             if o[0] == "raised" and o[1] == 99:
                 thm = {"lost": "C11_disconnect_on_timeout", "ok": "C11_disconnect_on_timeout", "timer": "C11_bound",
                        "reply": "C11_late_reply_inert", "close": "C20_pending_end"}.get(k, "C11_bound" if c11 else "C20_pending_end")
@@ -978,6 +995,7 @@ def monitor(cfg, records, which=("C11", "C20")):
         if k == "op":
             p = nops
             nops += 1
+            op_kind[p] = ev[1]
             if closed and c20:
                 got = [o for o in outs if o[0] == "opres" and o[1] == p]
                 if len(got) != 1 or got[0][2] not in (4, 6) or len(outs) != 1:
@@ -1021,7 +1039,15 @@ def monitor(cfg, records, which=("C11", "C20")):
                 if o[0] == "opres" and o[2] in (1, 8) and c20:
                     B("C20_pending_fail", "operation %d pending at close() succeeded" % o[1])
                 if o[0] == "opres" and o[2] == 9:
-                    findings.append(("F-C20-2", idx, "load_metadata_for_topics() pending at close() resolved with None (operation %d)" % o[1]))
+                    if op_kind.get(o[1]) == 1:
+                        findings.append(("F-C20-2", idx, "load_metadata_for_topics() pending at close() resolved with None (operation %d)" % o[1]))
+                    elif c20:
+                        B("C20_pending_fail", "operation %d (kind %r) pending at close() resolved with None" % (o[1], op_kind.get(o[1])))
+            # every bootstrap connection still up has been asked to close
+            if c20:
+                left = [a for a in rec["live_boot"] if a not in boot_lose]
+                if left:
+                    B("C20_no_connect_no_write_after_close", "close() did not ask bootstrap connection(s) %r to close" % left)
             if c20 and netact:
                 B("C20_no_connect_no_write_after_close", "network activity inside close(): %r" % netact)
             if c20 and rec["caches"] != (0, 0, 0, 0):
@@ -1042,6 +1068,12 @@ def monitor(cfg, records, which=("C11", "C20")):
                     B("C20_close_fires_last", "the close Deferred fired while broker connections %r are still up" % rec["live_bc"])
                 if rec["live_boot"]:
                     findings.append(("F-C20-2", idx, "close()'s Deferred fired while bootstrap connection(s) %r are still up" % rec["live_boot"]))
+        if k != "close" and c20:
+            for o in outs:
+                if o[0] == "opres" and o[2] == 9:
+                    B("C20_pending_fail", "operation %d resolved with None outside close()" % o[1])
+        if closed and c20 and not rec["live_bc"] and not rec["live_boot"] and rec["ntimers"] != 0:
+            B("C20_pending_end", "client closed, every connection gone, and %d DelayedCall(s) still armed" % rec["ntimers"])
         if closed and c20 and not rec["live_bc"] and closefired != 1:
             B("C20_close_fires_last", "every broker connection is gone and the close Deferred fired %d times" % closefired)
         # ---- the reactor holds exactly the timers the outputs account for
